@@ -535,4 +535,28 @@ Section Strategies.
       unfold mt_init, init, measure. cbn [todo chan hold pending running olist length].
       rewrite seq_length. lia.
   Qed.
+  Lemma tinv_run : forall ops sched s, tinv (mta_run P maxbuf frames ops sched s).
+  Proof.
+    intros ops sched s. unfold mta_run.
+    assert (H0 : tinv (mta_init maxbuf s ops)).
+    { unfold tinv, mta_init. cbn [m_pipe m_done m_prog]. split; [apply init_wf|]. intros _.
+      unfold mt_init, init. cbn [todo]. rewrite seq_length. symmetry. apply mta_prog_sends. exact maxbuf_pos. }
+    revert H0. generalize (mta_init maxbuf s ops).
+    induction sched as [|a t IH]; intros y H; cbn [fold_left]; [exact H|]. apply IH. apply tinv_step. exact H.
+  Qed.
+
+  (* NO REACHABLE DEADLOCK: whatever has happened so far (any joint schedule prefix), the life can
+     still be brought to its end *)
+  Theorem mta_no_deadlock : forall ops sched s,
+    exists sched2, m_done (mta_run P maxbuf frames ops (sched ++ sched2) s) = true.
+  Proof.
+    intros ops sched s.
+    pose proof (minv_run P maxbuf frames ops sched s) as Hm. pose proof (tinv_run ops sched s) as Ht.
+    pose proof (mta_iter_done (fun _ => false) (length ops) _ _ Hm Ht (le_n _)) as D.
+    destruct (mta_iter_is_run (mta_pick P (fun _ => false))
+                (mmeasure (mta_run P maxbuf frames ops sched s)) (mta_run P maxbuf frames ops sched s)) as [sched2 H2].
+    exists sched2. unfold mta_run at 1. rewrite fold_left_app.
+    change (fold_left jstep sched (mta_init maxbuf s ops)) with (mta_run P maxbuf frames ops sched s).
+    rewrite <- H2. exact D.
+  Qed.
 End Strategies.
